@@ -299,10 +299,17 @@ class PSBT:
                 tx_in.witness = Witness()
             # validate the signatures
             if psbt_in.sigs:
+                if not psbt_in.prev_out and not psbt_in.prev_tx:
+                    raise ValueError(
+                        f"partial signatures at input {i} cannot be checked without a UTXO"
+                    )
                 for sec, sig in psbt_in.sigs.items():
                     point = S256Point.parse(sec)
                     signature = Signature.parse(sig[:-1])
-                    if psbt_in.prev_out:
+                    if sig[-1:] != b"\x01":
+                        # check_sig_* verify against the SIGHASH_ALL digest only
+                        raise ValueError("partial signature is not SIGHASH_ALL")
+                    if psbt_in.use_segwit_signature():
                         # segwit
                         if not self.tx_obj.check_sig_segwit(
                             i,
@@ -314,7 +321,7 @@ class PSBT:
                             raise ValueError(
                                 "segwit signature provided does not validate"
                             )
-                    elif psbt_in.prev_tx:
+                    else:
                         # legacy
                         if not self.tx_obj.check_sig_legacy(
                             i, point, signature, psbt_in.redeem_script
